@@ -5,6 +5,7 @@ use std::panic::{catch_unwind, AssertUnwindSafe};
 
 thread_local! {
     static LAST_PANIC: RefCell<String> = RefCell::new(String::new());
+    static GUARD_DEPTH: RefCell<u32> = RefCell::new(0);
 }
 
 /// Installs a silent panic hook that remembers the message of the last panic.
@@ -21,13 +22,20 @@ pub fn install_panic_hook() {
             .location()
             .map(|l| format!("{}:{}", l.file(), l.line()))
             .unwrap_or_default();
+        // outside `guarded` the process is about to end: say why (a recorder driving the code under test)
+        if GUARD_DEPTH.with(|d| *d.borrow()) == 0 {
+            eprintln!("PANIC {} @ {}", msg, loc);
+        }
         LAST_PANIC.with(|p| *p.borrow_mut() = format!("{} @ {}", msg, loc));
     }));
 }
 
 /// A panic in the code under test is data, never a harness failure.
 pub fn guarded<T>(f: impl FnOnce() -> T) -> Result<T, String> {
-    match catch_unwind(AssertUnwindSafe(f)) {
+    GUARD_DEPTH.with(|d| *d.borrow_mut() += 1);
+    let r = catch_unwind(AssertUnwindSafe(f));
+    GUARD_DEPTH.with(|d| *d.borrow_mut() -= 1);
+    match r {
         Ok(v) => Ok(v),
         Err(_) => Err(LAST_PANIC.with(|p| p.borrow().clone())),
     }
